@@ -338,6 +338,9 @@ impl Property for C13 {
     fn id(&self) -> &'static str {
         "C13"
     }
+    fn fuzzable(&self) -> bool {
+        true
+    }
     fn rule(&self) -> String {
         "cases: (enumerated) every expression shape of depth 1 and every depth-2 shape with one nested operand position, over {binary operator, calls with 0-3 arguments, method call, operator on an object, object with parent and 0-3 fields, array(size, simple), array(size, compound) and array(size, counting initializer) with size 0-3, index read, index write, field write, let, assignment, if with/without else, counted while (condition traced), print with 0-3 arguments, block}, every operand position holding a self-identifying side effect (tr(k, v) or begin print(\"<k>\"); v end), including positions whose value is discarded; (random) the same shapes to depth 4 with several nested positions. oracle: the reference semantics' output = the marker sequence (order and multiplicity) and the printed result. non-trivial: >=3 traced operand evaluations; distinct by source".into()
     }
